@@ -49,6 +49,8 @@ def random_case(rng, maxn=8):
             kw["start_coord"] = side.choice(outside_starts(side, r, c))
     if gen in ("percolation", "dfs_percolation"):
         kw["p"] = rng.choice([0, 0.0, 0.1, 0.4, 0.7, 1.0, 1, round(rng.random(), 2)])
+        if zlib.crc32(repr((gen, r, c, sorted((k, str(v)) for k, v in kw.items()))).encode()) % 8 == 0:
+            del kw["p"]            # the documented default p = 0.4
     case = dict(gen=gen, rows=r, cols=c, kwargs=kw)
     if "start_coord" in kw and len(kw["start_coord"]) == 2 and zlib.crc32(repr(sorted((k, str(v)) for k, v in kw.items())).encode()) % 2:
         # the caller's own array as start_coord, changed in place by the caller right after the call (a sweep over start cells):
@@ -128,6 +130,10 @@ def run_impl(case, script=None, rand_script=None):
     from maze_dataset.generation.generators import LatticeMazeGenerators as LG
     warnings.filterwarnings("ignore")
     f = getattr(LG, "gen_" + case["gen"])
+    if (case["rows"] + case["cols"] + len(case["kwargs"])) % 2:
+        # the registry route: configurations name their generator and look it up here
+        from maze_dataset.generation.generators import GENERATORS_MAP
+        f = GENERATORS_MAP["gen_" + case["gen"]]
     shape = np.array([case["rows"], case["cols"]], dtype=case.get("shape_dtype", None))
     kwargs = dict(case["kwargs"]); start_arr = None
     if case.get("start_as_array") and "start_coord" in kwargs:
@@ -156,6 +162,12 @@ def run_impl(case, script=None, rand_script=None):
         impl["component"] = sorted([int(x) for x in v] for v in m.get_connected_component())
     except ValueError as e:
         impl["component"] = "ValueError"
+    # the consequence the property names: a random path drawn on this maze (default options) connects its two endpoints
+    if isinstance(impl["component"], list) and len(impl["component"]) >= 2 and case["rows"] > 1 and case["cols"] > 1:
+        try:
+            impl["random_path"] = [[int(a), int(b)] for a, b in m.generate_random_path()]
+        except Exception as e:
+            impl["random_path"] = f"{type(e).__name__}: {str(e)[:120]}"
     return impl, m
 
 
@@ -295,6 +307,14 @@ def oracle_c12(case, impl) -> str | None:
         rs = reach_from(adj, tuple(comp[0]))
         for v in comp:
             if tuple(v) not in rs: return f"cells {comp[0]} and {v} of get_connected_component() are not mutually reachable (random endpoints could be unsolvable)"
+    rp = impl.get("random_path")
+    if isinstance(rp, str): return f"generate_random_path() on the generated maze raised {rp} although its component has {len(comp)} cells"
+    if rp is not None:
+        if len(rp) < 2 or rp[0] == rp[-1]: return f"generate_random_path() returned {rp}: endpoints are not two distinct cells"
+        for a, b in zip(rp, rp[1:]):
+            if tuple(b) not in adj[tuple(a)]: return f"generate_random_path() returned a path that steps {a}->{b} through a wall"
+        if isinstance(comp, list) and (rp[0] not in [list(v) for v in comp] or rp[-1] not in [list(v) for v in comp]):
+            return f"generate_random_path() endpoints {rp[0]}, {rp[-1]} are not cells of get_connected_component()"
     full = len(reach_from(adj, (0, 0))) == n
     if impl["fully_connected"] is True and not full: return "flagged fully_connected but some cell is unreachable"
     if case["gen"] in ("dfs", "prim"):
